@@ -15,10 +15,23 @@ Definition strip_ws (s : string) : string := lstrip_ws (rstrip_ws s).
 
 Definition first_is_ws (s : string) : bool := match s with String c _ => is_ws c | _ => false end.
 
+(** str.splitlines() on ASCII text: a line ends at \n \r \v \f \x1c \x1d \x1e.  ("\r\n" is one boundary for
+    Python and two here: the empty line in between is dropped by the filter of parse_config, like the empty
+    last line after a final terminator.) *)
+Definition is_linebreak (c : ascii) : bool :=
+  let n := N_of_ascii c in (N.leb 10 n && N.leb n 13) || (N.leb 28 n && N.leb n 30).
+Fixpoint splitlines_aux (s cur : string) : list string :=
+  match s with
+  | EmptyString => [cur]
+  | String c s' => if is_linebreak c then cur :: splitlines_aux s' ""
+                   else splitlines_aux s' (cur ++ String c "")%string
+  end.
+Definition splitlines (s : string) : list string := splitlines_aux s "".
+
 (** parse_config: splitlines, rstrip, drop empty lines and lines starting with "!",
     strip the first line *)
 Definition config_lines (text : string) : list cline :=
-  let ls := filter (fun s => str_nonempty s && negb (starts_with "!" s)) (map rstrip_ws (split_lines text)) in
+  let ls := filter (fun s => str_nonempty s && negb (starts_with "!" s)) (map rstrip_ws (splitlines text)) in
   match ls with
   | [] => []
   | l0 :: rest => (false, strip_ws l0) :: map (fun s => (first_is_ws s, strip_ws s)) rest
